@@ -15,4 +15,17 @@ if ! cargo build --release --offline >"$ROOT/harness/target/build.log" 2>&1; the
   echo "INCONCLUSIVE: harness or /repo does not build" >&2
   exit 2
 fi
-exec "$ROOT/harness/target/release/check" "$ID" --tier "$TIER"
+case "$TIER:$ID" in
+  thorough:C01|thorough:C03|thorough:C04|thorough:C05|thorough:C11) ;;
+  *) exec "$ROOT/harness/target/release/check" "$ID" --tier "$TIER" ;;
+esac
+# thorough tier of these properties: proptest stage, then fixed-work libFuzzer campaigns (bin/fuzz_campaign.py)
+"$ROOT/harness/target/release/check" "$ID" --tier "$TIER"; rc1=$?
+if ! (cd "$ROOT" && cargo fuzz build -s none --fuzz-dir "$ROOT/fuzz" >"$ROOT/harness/target/fuzz-build.log" 2>&1); then
+  tail -20 "$ROOT/harness/target/fuzz-build.log"; echo "INCONCLUSIVE: fuzz targets do not build" >&2
+  [ "$rc1" = 1 ] && exit 1; exit 2
+fi
+python3 "$ROOT/bin/fuzz_campaign.py" "$ID"; rc2=$?
+if [ "$rc1" = 1 ] || [ "$rc2" = 1 ]; then exit 1; fi
+if [ "$rc1" != 0 ] || [ "$rc2" != 0 ]; then exit 2; fi
+exit 0
